@@ -29,7 +29,7 @@ class InjectedKernelFault(Exception):
 POISON_EXC = (InjectedKernelFault, StopIteration, FloatingPointError, OSError, KeyError)
 # natural failures: inputs for which evaluating the event one at a time raises (the oracle
 # decides; if it returns, the value must simply match)
-NATURAL = ("E:nan", "E:inf", "E:neg", "alt:nan", "beta:nan", "alt:66", "E:zero")
+NATURAL = ("E:nan", "E:inf", "E:neg", "alt:nan", "beta:nan", "alt:66", "E:zero", "E:huge", "E:tiny")
 
 
 class ConstCloud:
@@ -210,7 +210,7 @@ def _poisoned_event(ev, poison_kind):
     else:
         field, what = poison_kind.split(":")
         k = {"beta": 0, "alt": 1, "E": 2}[field]
-        ev[k] = {"nan": float("nan"), "inf": float("inf"), "neg": -abs(ev[k]) - 1.0, "66": 66.0, "zero": 0.0}[what]
+        ev[k] = {"nan": float("nan"), "inf": float("inf"), "neg": -abs(ev[k]) - 1.0, "66": 66.0, "zero": 0.0, "huge": 1e20, "tiny": 1e-30}[what]
     return tuple(ev)
 
 
